@@ -1,0 +1,103 @@
+//go:build verif
+
+package interpreter
+
+import (
+	"github.com/smarthome-go/homescript/v3/homescript/analyzer/ast"
+	"github.com/smarthome-go/homescript/v3/homescript/interpreter/value"
+	pAst "github.com/smarthome-go/homescript/v3/homescript/parser/ast"
+)
+
+// Specification vocabulary and contracts checked by /verif/hvc (build tag
+// verif only; see /verif/DESIGN.md, C02/C04).
+
+// valueOfType: the kind of the evaluator's value v is the one the static
+// type t admits.
+func valueOfType(v value.Value, t ast.Type) bool {
+	if v == nil || t == nil {
+		return false
+	}
+	switch t.Kind() {
+	case ast.IntTypeKind:
+		_, ok := v.(value.ValueInt)
+		return ok
+	case ast.FloatTypeKind:
+		_, ok := v.(value.ValueFloat)
+		return ok
+	case ast.BoolTypeKind:
+		_, ok := v.(value.ValueBool)
+		return ok
+	case ast.StringTypeKind:
+		_, ok := v.(value.ValueString)
+		return ok
+	}
+	return true
+}
+
+// infixAdmissible: the operator/operand-type combinations the analyzer admits.
+func infixAdmissible(op pAst.InfixOperator, l ast.Type, r ast.Type) bool {
+	if l == nil || r == nil || op > pAst.GreaterThanEqualInfixOperator {
+		return false
+	}
+	if op == pAst.EqualInfixOperator || op == pAst.NotEqualInfixOperator {
+		return true
+	}
+	if l.Kind() != r.Kind() {
+		return false
+	}
+	switch l.Kind() {
+	case ast.IntTypeKind:
+		return pAst.VIsIntArith(op) || op == pAst.PowerInfixOperator || pAst.VIsCompare(op)
+	case ast.FloatTypeKind:
+		return pAst.VIsFloatArith(op) || op == pAst.PowerInfixOperator || pAst.VIsCompare(op)
+	case ast.BoolTypeKind:
+		return op == pAst.BitOrInfixOperator || op == pAst.BitAndInfixOperator || op == pAst.BitXorInfixOperator || op == pAst.LogicalOrInfixOperator || op == pAst.LogicalAndInfixOperator
+	case ast.StringTypeKind:
+		return op == pAst.PlusInfixOperator
+	}
+	return false
+}
+
+// sameKind: two evaluator values have the same dynamic type.
+func sameKind(a value.Value, b value.Value) bool {
+	if a == nil || b == nil {
+		return a == nil && b == nil
+	}
+	return a.Kind() == b.Kind()
+}
+
+func sameFloat(a float64, b float64) bool { return a == b || (a != a && b != b) }
+
+/*@ assume-pure analyzer/ast.AnalyzedExpression.Type nonnil @*/
+
+// The evaluator returns, for a well-typed expression, a value of the
+// expression's static type, and evaluating an expression never changes the
+// dynamic type held by an existing value cell (type soundness of the analyzer
+// + evaluator): assumed here, not proved.
+
+/*@ func (self *Interpreter) expression
+    serves C02, C04
+    trusted
+    requires node != nil
+    ensures ret1 == nil ==> ret0 != nil && *ret0 != nil && valueOfType(*ret0, node.Type())
+    ensures ret1 != nil ==> *ret1 != nil
+    ensures @cells-keep-their-kind forall p *value.Value in allocated :: sameKind(*p, old(*p))
+@*/
+
+/*@ func (self *Interpreter) infixHelper
+    serves C02, C04
+    wrap int64
+    requires lhs != nil && rhs != nil && infixAdmissible(operator, lhs.Type(), rhs.Type())
+    ensures @result i == nil ==> res != nil && *res != nil
+    assert @int-semantics before return value.NewValueInt(intRes), lhsVal, nil :: operator != pAst.PowerInfixOperator ==> !pAst.VIntOpRaises(operator, rhsInt.Inner) && intRes == pAst.VIntOp(operator, lhsInt.Inner, rhsInt.Inner)
+    assert @float-semantics before return value.NewValueFloat(floatRes), lhsVal, nil :: operator != pAst.PowerInfixOperator ==> !pAst.VFloatOpRaises(operator, rhsFloat.Inner) && sameFloat(floatRes, pAst.VFloatOp(operator, lhsFloat.Inner, rhsFloat.Inner))
+    assert @bool-semantics before return value.NewValueBool(boolRes), lhsVal, nil :: boolRes == pAst.VBoolOp(operator, lhsBool, rhsBool)
+    assert @int-lt before return value.NewValueBool(lhsInt.Inner < rhsInt.Inner) :: pAst.VCmpInt(operator, lhsInt.Inner, rhsInt.Inner) == (lhsInt.Inner < rhsInt.Inner)
+    assert @int-le before return value.NewValueBool(lhsInt.Inner <= rhsInt.Inner) :: pAst.VCmpInt(operator, lhsInt.Inner, rhsInt.Inner) == (lhsInt.Inner <= rhsInt.Inner)
+    assert @int-gt before return value.NewValueBool(lhsInt.Inner > rhsInt.Inner) :: pAst.VCmpInt(operator, lhsInt.Inner, rhsInt.Inner) == (lhsInt.Inner > rhsInt.Inner)
+    assert @int-ge before return value.NewValueBool(lhsInt.Inner >= rhsInt.Inner) :: pAst.VCmpInt(operator, lhsInt.Inner, rhsInt.Inner) == (lhsInt.Inner >= rhsInt.Inner)
+    assert @float-lt before return value.NewValueBool(lhsFloat.Inner < rhsFloat.Inner) :: pAst.VCmpFloat(operator, lhsFloat.Inner, rhsFloat.Inner) == (lhsFloat.Inner < rhsFloat.Inner)
+    assert @float-le before return value.NewValueBool(lhsFloat.Inner <= rhsFloat.Inner) :: pAst.VCmpFloat(operator, lhsFloat.Inner, rhsFloat.Inner) == (lhsFloat.Inner <= rhsFloat.Inner)
+    assert @float-gt before return value.NewValueBool(lhsFloat.Inner > rhsFloat.Inner) :: pAst.VCmpFloat(operator, lhsFloat.Inner, rhsFloat.Inner) == (lhsFloat.Inner > rhsFloat.Inner)
+    assert @float-ge before return value.NewValueBool(lhsFloat.Inner >= rhsFloat.Inner) :: pAst.VCmpFloat(operator, lhsFloat.Inner, rhsFloat.Inner) == (lhsFloat.Inner >= rhsFloat.Inner)
+@*/
